@@ -684,6 +684,40 @@ func (w *world) exec(op string) (res string) {
 			delete(w.taint, atoi(f[1]))
 		}
 		return w.snapshot()
+	case "addhosts":
+		// addhosts <id,id,...>: what Session.init does with the hosts of the first ring refresh - ONE call of AddHosts
+		// if the policy has it (tokenAwareHostPolicy: every host into its own list, then ring + every held table
+		// recomputed ONCE, unconditionally, then AddHost of the fallback policy per host), AddHost per host otherwise
+		if len(f) != 2 || w.alias() {
+			return "bad-op"
+		}
+		var hs []*gocql.HostInfo
+		for _, id := range intList(f[1]) {
+			h, ok := w.hosts[id]
+			if !ok {
+				return "bad-op"
+			}
+			hs = append(hs, h)
+		}
+		if len(hs) == 0 {
+			return "bad-op"
+		}
+		w.lastPlain = nil
+		w.epoch++
+		for _, id := range intList(f[1]) {
+			w.mutLog = append(w.mutLog, mutRec{w.epoch, id})
+			w.record("add", id)
+			delete(w.taint, id)
+		}
+		if v, ok := w.pol.(interface{ AddHosts([]*gocql.HostInfo) }); ok {
+			v.AddHosts(hs)
+		} else {
+			for _, h := range hs {
+				w.pol.AddHost(h)
+			}
+		}
+		w.specRefreshAll()
+		return w.snapshot()
 	case "sessks":
 		if len(f) != 2 {
 			return "bad-op"
@@ -2242,6 +2276,126 @@ func (g *gen) burstScenario(idx, rounds int) {
 	}
 }
 
+// bulkScenario (family 5, "the hosts arrive in bulk"): what Session.init does - ONE AddHosts call with the hosts of
+// the first ring refresh when the policy has the method (tokenAwareHostPolicy), AddHost per host otherwise. Every
+// policy kind, bare and token-aware (2 of 3; session keyspace with SimpleStrategy rf 1..3, another keyspace with a
+// readable schema, tables installed through the hook), 3..9 hosts with 1..2 tokens; the first call hands over a random
+// subset (now and then one host twice, now and then before the partitioner / the keyspace table is known); then 6..15
+// steps of AddHost / RemoveHost / HostUp / HostDown / state / KeyspaceChanged / installed table / AddHosts AGAIN with
+// known and unknown hosts mixed or with known hosts only (the code then recomputes every held table although its host
+// list did not change: an installed table is dropped - what a fold of AddHost would not do); after every step full
+// drains without routing key and - token-aware - routed on keyspaces 0 and 1: `offer` (spec-backed) unless excluded.
+func (g *gen) bulkScenario(idx int) {
+	r := g.r
+	g.kind = []string{"rr", "dc", "rack"}[idx%3]
+	g.ta = idx%9 < 6
+	shuffle := g.ta && r.Intn(4) == 0
+	g.nonlocal = g.ta && r.Bool()
+	g.ldc, g.lrack = r.Intn(2), r.Intn(2)
+	g.emit(fmt.Sprintf("reset %s %s %d %d %s %s %s", g.kind, b01(g.ta), g.ldc, g.lrack, b01(shuffle), b01(g.nonlocal), b01(r.Intn(12) != 0)),
+		"reset/"+g.kind+"/ta"+b01(g.ta), false)
+	g.n = 3 + r.Intn(7)
+	g.sess = -1
+	for id := 1; id <= g.n; id++ {
+		ts := strconv.Itoa(id * 100)
+		if r.Intn(3) == 0 {
+			ts += "," + strconv.Itoa(id*100+1000+r.Intn(50))
+		}
+		g.emit(fmt.Sprintf("host %d %d %d %d %s", id, id, r.Intn(2), r.Intn(2), ts), "host", false)
+	}
+	if g.ta {
+		if r.Intn(4) != 0 {
+			g.sess = 0
+			g.emit("sessks 0", "sessks", false)
+			g.emit(fmt.Sprintf("ksmeta 0 %d", 1+r.Intn(3)), "ksmeta", false)
+		}
+		if r.Bool() {
+			g.emit(fmt.Sprintf("ksmeta 1 %d", 1+r.Intn(3)), "ksmeta", false)
+		}
+	}
+	subset := func(onlyKnown bool) string {
+		var ids []string
+		for id := 1; id <= g.n; id++ {
+			if onlyKnown && !g.w.stat(id).known {
+				continue
+			}
+			if r.Intn(4) != 0 {
+				ids = append(ids, strconv.Itoa(id))
+				if r.Intn(12) == 0 {
+					ids = append(ids, strconv.Itoa(id)) // the same host twice in one call
+				}
+			}
+		}
+		if len(ids) == 0 {
+			ids = []string{strconv.Itoa(1 + r.Intn(g.n))}
+		}
+		for i := len(ids) - 1; i > 0; i-- {
+			j := r.Intn(i + 1)
+			ids[i], ids[j] = ids[j], ids[i]
+		}
+		return strings.Join(ids, ",")
+	}
+	cls := "/" + g.kind + "/ta" + b01(g.ta)
+	observe := func() {
+		g.pickWith("-", "-", 1000, true)
+		if g.ta {
+			g.pickWith("0", strconv.Itoa(r.Intn((g.n+1)*100)), 1000, true)
+			if r.Bool() {
+				g.pickWith("1", strconv.Itoa(r.Intn((g.n+1)*100)), 1000, true)
+			}
+		}
+	}
+	if g.ta && r.Intn(3) == 0 {
+		g.emit("kschg 1", "kschg", true) // before any host is known
+	}
+	g.emit("addhosts "+subset(false), "addhosts"+cls+"/first", true)
+	observe()
+	if g.ta && r.Bool() {
+		g.emit("kschg 1", "kschg", true)
+		observe()
+	}
+	for i := 6 + r.Intn(10); i > 0; i-- {
+		id := 1 + r.Intn(g.n)
+		switch x := r.Intn(100); {
+		case x < 12:
+			g.emit(fmt.Sprintf("add %d", id), "add", true)
+		case x < 26:
+			g.emit(fmt.Sprintf("remove %d", id), "remove", true)
+		case x < 34:
+			if g.w.stat(id).known { // (HostUp of an unknown host is KF-C11-4: excluded wholesale)
+				if r.Intn(4) != 0 {
+					g.emit(fmt.Sprintf("state %d 1", id), "state", false)
+				}
+				g.emit(fmt.Sprintf("hup %d", id), "hup", true)
+			}
+		case x < 42:
+			if r.Intn(4) != 0 {
+				g.emit(fmt.Sprintf("state %d 0", id), "state", false)
+			}
+			g.emit(fmt.Sprintf("hdown %d", id), "hdown", true)
+		case x < 48:
+			g.emit(fmt.Sprintf("state %d %d", id, r.Intn(2)), "state", false)
+		case x < 56:
+			if g.ta {
+				g.emit(fmt.Sprintf("kschg %d", r.Intn(2)), "kschg", true)
+			}
+		case x < 68:
+			if g.ta {
+				g.repl()
+				observe()
+				if r.Bool() {
+					g.emit("addhosts "+subset(true), "addhosts"+cls+"/known-only", true)
+				}
+			}
+		case x < 84:
+			g.emit("addhosts "+subset(false), "addhosts"+cls+"/mixed", true)
+		default:
+			g.emit("addhosts "+subset(true), "addhosts"+cls+"/known-only", true)
+		}
+		observe()
+	}
+}
+
 // rngPerm: a permutation of 0..n-1 from the harness' own generator
 func rngPerm(r *vh.Rng, n int) []int {
 	p := make([]int, n)
@@ -3184,6 +3338,14 @@ func main() {
 	}
 	for i := 0; i < nid; i++ {
 		g.identityScenario(i)
+	}
+	// (w-s11f) BULK family: the hosts reach the policy the way Session.init hands them over (AddHosts), last again
+	nbk := 90
+	if tier == "thorough" {
+		nbk = 2700
+	}
+	for i := 0; i < nbk; i++ {
+		g.bulkScenario(i)
 	}
 	extra := map[string]interface{}{}
 	if tier == "thorough" {
